@@ -22,4 +22,7 @@ var Registry = map[string]func(args []string){
 	"routing":        RoutingReplay,
 	"limits":         LimitsCheck,
 	"config-grid":    ConfigGrid,
+	"auth-scripts":   AuthScripts,
+	"auth-bits":      AuthBits,
+	"auth-extras":    AuthExtras,
 }
